@@ -17,7 +17,13 @@ Definition ievent := (N * event)%type.
 Inductive c10case :=
 | CHist (author : key) (steps : list (list ievent)) (probes : list probe)
 (* the same, on an instance of its own that is stopped and started again on its data folder *)
-| CRestart (author : key) (steps : list (list ievent)) (probes : list probe).
+| CRestart (author : key) (steps : list (list ievent)) (probes : list probe)
+(* a burst: the steps after the first are sent without awaiting one another; whatever the interleaving,
+   live room, reloaded room and the room a fresh peer imports come from the same stored rows *)
+| CBurst (author : key) (steps : list (list ievent)) (probes : list probe)
+(* a peer that holds the definition [old] receives the later definition [cand] of the same room directly
+   (it skipped the versions in between); a peer that never saw the room receives [cand] as well *)
+| CJump (old cand : roomnode) (probes : list probe).
 Definition events_of (steps : list (list ievent)) : list event := map snd (concat steps).
 
 (* ------------------------------------------------------------------ live *)
@@ -87,7 +93,7 @@ Definition reload (evs : list ievent) : option room :=
    row keeps the date of the step that created it (re-signing by the same administrator does not
    change any verdict below: the author is an administrator from the first step on) *)
 Definition mk_un (author : key) (i : N) (k : key) (d : Z) (b : bool) : unode :=
-  {| un_id := i; un_date := d; un_author := author; un_key := k; un_enabled := b |}.
+  {| un_id := i; un_date := d; un_author := author; un_key := k; un_enabled := b; un_cdate := d |}.
 Definition mk_edge (author : key) (src : uid) (label : N) (i : N) (d : Z) : edge :=
   {| e_src := src; e_label := label; e_dest := i; e_date := d; e_author := author |}.
 
@@ -131,7 +137,7 @@ Definition export_step (author : key) (n : roomnode) (iev : N * event) : roomnod
          rmn_gnodes := add_to_group g (fun a =>
            {| an_id := an_id a; an_date := an_date a; an_author := an_author a;
               an_redges := an_redges a ++ [mk_edge author g L_RIGHTS i d];
-              an_rnodes := an_rnodes a ++ [{| rn_id := i; rn_date := d; rn_author := author; rn_ent := e; rn_self := s; rn_all := a0 |}];
+              an_rnodes := an_rnodes a ++ [{| rn_id := i; rn_date := d; rn_author := author; rn_ent := e; rn_self := s; rn_all := a0; rn_cdate := d |}];
               an_uedges := an_uedges a; an_unodes := an_unodes a;
               an_aedges := an_aedges a; an_anodes := an_anodes a |}) (rmn_gnodes n) |}
   end.
@@ -222,9 +228,31 @@ Definition run_hist (author : key) (steps : list (list ievent)) (probes : list p
   (* the importing peer reloads the same rows *)
   (if forallb (fun v => Z.leb v 1) vs then dec_opt (reload evs) probes else []).
 
+(* the definition a peer holds after accepting [res]: room in memory = its parse *)
+Definition jump_part (old cand : roomnode) (probes : list probe) : list Z :=
+  match parse_room old with
+  | PErr _ => [-1]
+  | POk r =>
+      match prepare_room_node (Some r) (Some old) cand with
+      | PErr e => [perr_code e]
+      | POk (false, _) => 0 :: decisions r probes               (* nothing new: the room held stays *)
+      | POk (true, res) => 1 :: match parse_room res with POk r' => decisions r' probes | PErr _ => [] end
+      end
+  end.
+Definition fresh_part (cand : roomnode) (probes : list probe) : list Z :=
+  match prepare_room_node None None cand with
+  | PErr e => [perr_code e]
+  | POk (_, res) => 1 :: match parse_room res with POk r' => decisions r' probes | PErr _ => [] end
+  end.
+
 Definition run_C10 (c : c10case) : list Z :=
   match c with
   | CHist author steps probes => run_hist author steps probes
+  | CBurst author steps probes =>
+      let '(r, oks) := live steps in
+      map zb oks ++ decisions r probes ++ dec_opt (reload (concat steps)) probes ++
+      match fresh_import author steps with POk rf => 1 :: decisions rf probes | PErr e => [perr_code e] end
+  | CJump old cand probes => jump_part old cand probes ++ fresh_part cand probes
   | CRestart author steps probes =>
       let evs := concat steps in
       let '(r, oks) := live steps in
@@ -248,8 +276,38 @@ Definition same_as_live (dl : list Z) (part : list Z) : bool :=
 (* judged on what the implementation did: every step accepted live, the live room decides what the
    history grants, the data can be reloaded, a new peer can import it, a peer following step by
    step accepts every step, and all of them decide as the live room does *)
+(* the events a definition lists (what its rows say), for the meaning of an imported room *)
+Definition node_events (n : roomnode) : list event :=
+  map (fun x => EvAdmin (un_key x) (un_date x) (un_enabled x)) (rmn_anodes n) ++
+  flat_map (fun a => EvGroup (an_id a) ::
+                     map (fun x => EvRight (an_id a) (rn_ent x) (rn_date x) (rn_self x) (rn_all x)) (an_rnodes a) ++
+                     map (fun x => EvUser (an_id a) (un_key x) (un_date x) (un_enabled x)) (an_unodes a) ++
+                     map (fun x => EvUAdmin (an_id a) (un_key x) (un_date x) (un_enabled x)) (an_anodes a)) (rmn_gnodes n).
+
 Definition spec_C10 (c : c10case) (obs : list Z) : bool :=
   match c with
+  | CBurst author steps probes =>
+      let evs := events_of steps in
+      let ne := length evs in let nd := (5 * length probes)%nat in
+      let dl := take nd (dropn ne obs) in
+      let r1 := dropn (ne + nd) obs in
+      forallb (Z.eqb 1) (take ne obs) && Nat.eqb (length (take ne obs)) ne &&
+      zlist_eqb dl (flat_map (probe_spec evs) probes) &&
+      same_as_live dl (take (S nd) r1) && same_as_live dl (dropn (S nd) r1)
+  | CJump old cand probes =>
+      (* an honest later definition is accepted by the peer that holds an earlier one and by the peer that
+         never saw the room, and both then decide what the rows of the definition say *)
+      let nd := (5 * length probes)%nat in
+      let want := flat_map (probe_spec (node_events cand)) probes in
+      match obs with
+      | vj :: rest =>
+          Z.leb 0 vj && Z.leb vj 1 && zlist_eqb (take nd rest) want &&
+          match dropn nd rest with
+          | vf :: df => Z.eqb vf 1 && zlist_eqb df want
+          | [] => false
+          end
+      | [] => false
+      end
   | CHist author steps probes =>
       let evs := events_of steps in
       let ne := length evs in let nd := (5 * length probes)%nat in let ns := length steps in
@@ -287,8 +345,7 @@ Definition entry_keys (evs : list event) : list (slot * Z) :=
                       | EvUAdmin g k d _ => [((2, g, k), d)]
                       | EvRight g e d _ _ => [((3, g, e), d)]
                       end)%N evs.
-Definition case_steps (c : c10case) := match c with CHist _ s _ | CRestart _ s _ => s end.
-Definition case_author (c : c10case) := match c with CHist a _ _ | CRestart a _ _ => a end.
+Definition case_steps (c : c10case) := match c with CHist _ s _ | CRestart _ s _ | CBurst _ s _ => s | CJump _ _ _ => [] end.
 
 Definition payload (ev : event) : Z :=
   match ev with
